@@ -4,6 +4,7 @@
   part 1 "C02proto" = the PROTOCOL part: Model/CopyImpl.v (syncutil.Go / LimitedRegion / Tracker),
                       Properties/C02_protocol.v, harness cmd/goimpl."""
 import base64 as _b64
+import copyvm02 as _copyvm02
 
 
 def _c02_case(c):
@@ -74,6 +75,7 @@ CONFIG = {
     "harness_test": True,
     "harness": "c02",
     "case_to_replay": _c02_spec_case,
+    "post_model": _copyvm02.vm_sample(),
     "timeout_quick": 900,
     "timeout_thorough": 3600,
     "timeout_search": 1200,
